@@ -70,10 +70,10 @@ def gen_union(rnd, i):
     return {"name": uname, "key": key, "alts": alts, "mode": mode, "src": lines}
 
 
-def gen_inherited(rnd, i):
+def gen_inherited(rnd, i, single=False):
     """`@discriminator(key)` on a parent dataclass: the subclasses are the alternatives, tagged by their names (or by an
-    explicit mapping)"""
-    n = rnd.randint(2, 3); key = rnd.choice(["type", "kind"]); pname = f"P{i}"
+    explicit mapping); `single`: the parent has exactly one subclass"""
+    n = 1 if single else rnd.randint(2, 3); key = rnd.choice(["type", "kind"]); pname = f"P{i}"
     explicit = False          # (a mapping would have to name classes defined after the decorated parent)
     alts, sub = [], []
     for k in range(n):
@@ -83,7 +83,7 @@ def gen_inherited(rnd, i):
         sub += fl + [""]
         alts.append({"cls": cname, "tag": (f"m{k}" if explicit else cname), "has_field": False, "aliased": False, "fields": fields, "aliases": {},
                      "extra_body": {}, "extra_ctor": ""})
-    if rnd.random() < 0.4:
+    if not single and rnd.random() < 0.4:
         # a subclass of an alternative (a grandchild of the discriminated class), with a field of its own: an alternative like the others
         par = alts[0]; cname = f"P{i}_0g"
         fields = par["fields"] + [("g", "str", "gg")]
@@ -91,13 +91,16 @@ def gen_inherited(rnd, i):
         alts.append({"cls": cname, "tag": cname, "has_field": False, "aliased": False, "fields": fields, "aliases": {}, "extra_body": {}, "extra_ctor": ""})
     deco = f"@discriminator({key!r}" + (", {" + ", ".join(f"{a['tag']!r}: {a['cls']!r}" for a in alts) + "}" if explicit else "") + ")"
     lines = [deco, "@dataclass", f"class {pname}:", "    base: int = 0", ""] + sub
-    return {"name": pname, "key": key, "alts": alts, "mode": "inherited" + ("-explicit" if explicit else ""), "src": lines}
+    return {"name": pname, "key": key, "alts": alts, "mode": "inherited" + ("-explicit" if explicit else "") + ("-single" if single else ""), "src": lines}
 
 
 def run_discr(seed, budget, want=("dispatch", "roundtrip", "tagged", "purity")):
     from apischema import deserialize, serialize, ValidationError
     rnd = random.Random(seed * 13 + 1); n = 80 * budget
     unions = [gen_union(rnd, i) if rnd.random() < 0.8 else gen_inherited(rnd, i) for i in range(n)]
+    # a discriminated parent with exactly one subclass (its own random stream: the other families stay what they were)
+    rnd1 = random.Random(seed * 17 + 5)
+    unions += [gen_inherited(rnd1, n + j, single=True) for j in range(2 * budget)]
     src = list(HEADER)
     for u in unions: src += u["src"] + [""]
     src += ["class TU(TaggedUnion):", "    a: Tagged[int]", "    b: Tagged[str]", ""]
@@ -110,7 +113,7 @@ def run_discr(seed, budget, want=("dispatch", "roundtrip", "tagged", "purity")):
         except Exception as e: return ("crash", type(e).__name__ + ":" + str(e)[:80])
 
     def fail(kind, u, **kw):
-        failures.append(dict({"kind": "P", "k_ok": True, "why": [kind], "union_src": u["src"] if u else None}, **{k: (repr(v)[:300] if not isinstance(v, (str, int, bool, list, dict, type(None))) else v) for k, v in kw.items()}))
+        failures.append(dict({"kind": "P", "k_ok": True, "why": [kind], "union_src": u["src"] if u else None, "mode": u["mode"] if u else None}, **{k: (repr(v)[:300] if not isinstance(v, (str, int, bool, list, dict, type(None))) else v) for k, v in kw.items()}))
         hist["P:" + kind] += 1
 
     for u in unions:
